@@ -263,10 +263,10 @@ PROPS = {
         'trusted': ['rand 0.7.3 / rand_pcg 0.2.1 sampling algorithms are modelled (Model/Rand.lean) and tied by the bit-exact rng family', 'f64 rounding and IEEE special values other than NaN-as-not-equal-to-itself are outside the real-number theorems'],
     },
     'C08': {
-        'level_text': 'Proof over R: clamp lands in range; run invariant — if every handled parameter starts inside its range then every proposal and the result keep every handled parameter inside its range and every unhandled parameter unchanged, for any history; generated degrees of freedom and bounds (regenerated from cell.rs/site.rs each run) equal the declared ones (length [0.01,cur], ratio [0.1,cur], angle [pi/6,pi/2] only for oblique cells, x,y in [-1/2,1/2], orientation [0,2pi]); handle addresses distinct; angle unhandled unless Monoclinic; chained stages re-derive contained ranges; no degenerate cell inside the box. Partial: finiteness of the returned score rests on the score functions (C02/C03) and the NaN clause of C07.',
+        'level_text': 'Proof over R: clamp lands in range; run invariant — if every handled parameter starts inside its range then every proposal and the result keep every handled parameter inside its range and every unhandled parameter unchanged, for any history; generated degrees of freedom and bounds (regenerated from cell.rs/site.rs each run) equal the declared ones (length [0.01,cur], ratio [0.1,cur], angle [pi/6,pi/2] only for oblique cells, x,y in [-1/2,1/2], orientation [0,2pi]); handle addresses distinct; angle unhandled unless Monoclinic; chained stages re-derive contained ranges; no degenerate cell inside the box; every table with any hard shape whose components lie within its positive enclosing radius starts from a state that passes the overlap check with a positive finite score (kernel-decided separation of the initial copies per table, transported to R), and every LJ initial state reports a score. Partial: finiteness of the returned score along a run rests on the score functions (C02/C03) and the NaN clause of C07.',
         'level_note': 'Trusted: translator pvtx.py for bounds (validated by cell dof / site basis / state basis requests observed behaviourally on the crate); Lean kernel + 3 axioms.',
         'technique': 'Lean 4 invariant proof + kernel-decided declared-constants obligations over translator output + differential correspondence',
-        'theorems': ['Proofs.C08'],
+        'theorems': ['Proofs.C08', 'Proofs.C08Init'],
         'families': [('state', 1500, 30000), ('cell', 1500, 20000), ('site', 1000, 20000), ('opt', 1000, 20000)],
         'search': (12, 300),
         'rule': 'state: 7 groups x shapes x potentials, ops score/params/basis/label/relpos/cartpos incl. from_group initial states; search: range/family monitor on every recorded proposal, chains of 1..4 stages on real states, from_group validity for every group x shape family',
